@@ -285,13 +285,17 @@ def run(case, sim):
     for s in subs:
         if isinstance(s["ev"], dict) and isinstance(s["ev"].get("id"), str):
             by_id[s["ev"]["id"]].append(s)
+        elif isinstance(s["ev"], dict) and "id" not in s["ev"] and s["ok"] is True and isinstance(s.get("ok_id"), str):
+            # submitted without an id field: the relay computes the id itself and says so in its OK
+            by_id[s["ok_id"]].append(s)
     for eid, lst in by_id.items():
         n_push = pushed[(observer.idx, eid)]
         if len(lst) > 1:
             probes["resubmitted_ids"] += 1
         ev0 = lst[0]["ev"]
         eph = isinstance(ev0.get("kind"), int) and model.is_ephemeral(ev0["kind"])
-        same = all(json.dumps(x["ev"], sort_keys=True) == json.dumps(ev0, sort_keys=True) for x in lst)
+        noid = lambda e: json.dumps({k: v for k, v in e.items() if k != "id"}, sort_keys=True)
+        same = all(noid(x["ev"]) == noid(ev0) for x in lst)
         def stored_throughout(t0, t1):
             sts = w.env.states_between(t0, t1)
             return bool(sts) and all(eid in d for d in sts)
